@@ -166,13 +166,16 @@ theorem anchors_only_never_user (b : Backend) (p : Policy) (q : Query) (h : p.an
     unfold checkTrust opensslCheck rustNativeCheck ekuGate
     simp [h]
 
-/-- A system verdict does not depend on the user anchors either (system anchors are tried first). -/
-theorem system_first (b : Backend) (p : Policy) (q : Query) (h : checkTrust b p q = .ok .system) :
-    ∀ uv up, checkTrust b p { q with userValid := uv, userAnchorsParse := up } = .ok .system := by
+/-- A system verdict does not depend on the user anchors either (OpenSSL backend: the system
+store is tried first, the user store only after it failed). Not claimed for rust_native, whose
+walk goes certificate by certificate from the top of the chain and tries both stores at each, so
+that which *kind* of anchor answers when both stores would verify depends on the positions. -/
+theorem system_first (p : Policy) (q : Query) (h : checkTrust .openssl p q = .ok .system) :
+    ∀ uv up, checkTrust .openssl p { q with userValid := uv, userAnchorsParse := up } = .ok .system := by
   intro uv up
   revert h
-  unfold checkTrust opensslCheck rustNativeCheck ekuGate
-  cases b <;> cases p.passthrough <;> cases p.allowSet.contains q.certHash <;>
+  unfold checkTrust opensslCheck ekuGate
+  cases p.passthrough <;> cases p.allowSet.contains q.certHash <;>
     cases (p.nSys == 0 && p.nUser == 0) <;> cases q.eeParses <;> cases q.eku <;>
     cases q.chainParses <;> cases q.sysAnchorsParse <;> cases q.sysValid <;> cases p.anchorsOnly <;>
     cases q.userAnchorsParse <;> cases q.userValid <;> simp
@@ -183,10 +186,10 @@ theorem system_first (b : Backend) (p : Policy) (q : Query) (h : checkTrust b p 
 verdict is logged: neither `signingCredential.trusted` nor `signingCredential.untrusted` is among
 the signature codes, whatever the policy, the credential and the oracle say. -/
 theorem disabled_no_verdict (mode : Mode) (hm : mode ≠ .trustPolicy) (b : Backend)
-    (env : C06.Env) (f : C06.CertFacts) (p : Policy) (q : Query) (sigOk : Bool) :
+    (tst : Option Int) (now : Int) (f : C06.CertFacts) (p : Policy) (q : Query) (sigOk : Bool) :
     verifyTrust mode b p q = .none ∧
-    C04.cTrusted ∉ (credentialCodes mode b env f p q sigOk).success ∧
-    C04.cUntrusted ∉ (credentialCodes mode b env f p q sigOk).failure := by
+    C04.cTrusted ∉ (credentialCodes mode b tst now f p q sigOk).success ∧
+    C04.cUntrusted ∉ (credentialCodes mode b tst now f p q sigOk).failure := by
   refine ⟨?_, ?_, ?_⟩
   · cases mode <;> simp [verifyTrust] at hm ⊢
   · unfold credentialCodes C06.signatureCodes C06.trustCodes
@@ -194,7 +197,7 @@ theorem disabled_no_verdict (mode : Mode) (hm : mode ≠ .trustPolicy) (b : Back
   · unfold credentialCodes C06.signatureCodes C06.trustCodes C06.profileFailure
     cases mode <;> cases sigOk <;> simp at hm ⊢
     all_goals
-      cases C06.checkEndEntity env f with
+      cases C06.checkEndEntity (envOf p tst now) f with
       | ok => simp <;> decide
       | err k c r => cases c <;> simp <;> decide
 
@@ -224,24 +227,36 @@ theorem state_of_codes (mode : Mode) (prof : C06.Res) (trust : Trust) (sigOk : B
     rw [hk, hr]
     cases c <;> cases mode <;> cases trust <;> cases sigOk <;> decide
 
+/-- The profile check and the trust check agree on the EKU: a certificate that conforms to the
+profile under the policy's EKU configuration passes the trust backends' EKU gate. (In the code
+both read the same `CertificateTrustPolicy` and the same certificate bytes; the model has one
+`p` and derives the trust query's certificate view from `f`.) -/
+theorem conforming_eku_accepted (p : Policy) (tst : Option Int) (now : Int) (f : C06.CertFacts)
+    (q : Query) (c : C06.Conforming (envOf p tst now) f) : EkuAccepted p (queryOf f q) := by
+  obtain ⟨e, he, _, hal, _⟩ := c.eku
+  refine ⟨?_, e, ?_, hal⟩
+  · simp [queryOf, c.parses]
+  · simp [queryOf, he, ekuOfFacts]
+
 /-- **The state is Trusted exactly when** trust is verified, the policy trusts the credential, the
-certificate conforms to the profile (C06) and the signature verifies. -/
-theorem credential_trusted_iff (mode : Mode) (env : C06.Env) (f : C06.CertFacts) (p : Policy)
-    (q : Query) (sigOk : Bool) :
-    credentialState mode .openssl env f p q sigOk = .trusted ↔
-      mode = .trustPolicy ∧ (∃ a, TrustedBy p q a) ∧ C06.Conforming env f ∧ sigOk = true := by
+certificate conforms to the profile (C06) under the *same* policy, and the signature verifies. -/
+theorem credential_trusted_iff (mode : Mode) (tst : Option Int) (now : Int) (f : C06.CertFacts)
+    (p : Policy) (q : Query) (sigOk : Bool) :
+    credentialState mode .openssl tst now f p q sigOk = .trusted ↔
+      mode = .trustPolicy ∧ (∃ a, TrustedBy p (queryOf f q) a) ∧
+        C06.Conforming (envOf p tst now) f ∧ sigOk = true := by
   unfold credentialState credentialCodes
   rw [state_of_codes, ← C06.accepted_iff_conforming]
-  have ht := trusted_iff_policy mode p q
+  have ht := trusted_iff_policy mode p (queryOf f q)
   cases sigOk
   · simp
-  · cases hpr : C06.checkEndEntity env f with
+  · cases hpr : C06.checkEndEntity (envOf p tst now) f with
     | ok =>
       cases mode
-      · rcases verdict_total .openssl p q with hv | hv
+      · rcases verdict_total .openssl p (queryOf f q) with hv | hv
         · have := (ht.1 hv).2
           simp [hv, Verdict.toTrust, C06.Res.rejected, this]
-        · have hne : ¬ ∃ a, TrustedBy p q a := fun hex => by
+        · have hne : ¬ ∃ a, TrustedBy p (queryOf f q) a := fun hex => by
             have := ht.2 ⟨rfl, hex⟩; rw [hv] at this; cases this
           simp [hv, Verdict.toTrust, C06.Res.rejected, hne]
       · simp [C06.Res.rejected]
@@ -252,25 +267,257 @@ theorem credential_trusted_iff (mode : Mode) (env : C06.Env) (f : C06.CertFacts)
       · simp [C06.Res.rejected]
       · simp [C06.Res.rejected]
 
-/-- **eku_required**: a Trusted state implies an EKU accepted by the configuration on the
-signing certificate (through the profile check, whichever way trust was established). -/
-theorem eku_required (mode : Mode) (env : C06.Env) (f : C06.CertFacts) (p : Policy) (q : Query)
-    (sigOk : Bool) (h : credentialState mode .openssl env f p q sigOk = .trusted) :
-    ∃ e, f.eku = .some e ∧ e.any = false ∧ hasAllowedEku env.allowedEkus e = true := by
-  obtain ⟨_, _, c, _⟩ := (credential_trusted_iff mode env f p q sigOk).1 h
+/-- **eku_required**: a Trusted state implies an EKU on the signing certificate that the
+policy's own configuration accepts, whichever way trust was established (allow list included). -/
+theorem eku_required (mode : Mode) (tst : Option Int) (now : Int) (f : C06.CertFacts) (p : Policy)
+    (q : Query) (sigOk : Bool) (h : credentialState mode .openssl tst now f p q sigOk = .trusted) :
+    ∃ e, f.eku = .some e ∧ e.any = false ∧ hasAllowedEku p.allowedEkus e = true := by
+  obtain ⟨_, _, c, _⟩ := (credential_trusted_iff mode tst now f p q sigOk).1 h
   obtain ⟨e, he, ha, hal, _⟩ := c.eku
   exact ⟨e, he, ha, hal⟩
 
 /-- A conforming, correctly signed credential that the policy does not trust is Valid with
 `signingCredential.untrusted`. -/
-theorem conforming_untrusted_valid (env : C06.Env) (f : C06.CertFacts) (p : Policy) (q : Query)
-    (hc : C06.Conforming env f) (hn : ¬ ∃ a, TrustedBy p q a) :
-    credentialState .trustPolicy .openssl env f p q true = .valid ∧
-    C04.cUntrusted ∈ (credentialCodes .trustPolicy .openssl env f p q true).failure := by
-  have hu := (otherwise_untrusted p q).2 hn
+theorem conforming_untrusted_valid (tst : Option Int) (now : Int) (f : C06.CertFacts) (p : Policy)
+    (q : Query) (hc : C06.Conforming (envOf p tst now) f) (hn : ¬ ∃ a, TrustedBy p (queryOf f q) a) :
+    credentialState .trustPolicy .openssl tst now f p q true = .valid ∧
+    C04.cUntrusted ∈ (credentialCodes .trustPolicy .openssl tst now f p q true).failure := by
+  have hu := (otherwise_untrusted p (queryOf f q)).2 hn
   unfold credentialState credentialCodes
-  rw [C06.conforming_accepted env f hc, hu]
+  rw [C06.conforming_accepted _ f hc, hu]
   exact ⟨by decide, by decide⟩
+
+/-! ### The statement, declaratively -/
+
+/-- Input-level coherence of the chain oracle with the configuration: a chain can only verify
+against a store that holds at least one anchor. (The implementation's oracle, OpenSSL, cannot
+answer "verified" from an empty store.) -/
+def OracleCoherent (p : Policy) (q : Query) : Prop :=
+  (q.sysValid = true → p.nSys ≠ 0) ∧ (q.userValid = true → p.nUser ≠ 0)
+
+/-- The property statement's condition, without reference to the order of the tests in the code:
+on the allow list, **or** an accepted EKU and a chain (all inputs decodable) to a system anchor or
+— unless trust-anchor-only — to a user anchor. -/
+def StatementTrusted (p : Policy) (q : Query) : Prop :=
+  q.certHash ∈ p.allowSet ∨
+  (EkuAccepted p q ∧ q.chainParses = true ∧ q.sysAnchorsParse = true ∧
+    (q.sysValid = true ∨ (p.anchorsOnly = false ∧ q.userAnchorsParse = true ∧ q.userValid = true)))
+
+theorem trustedBy_iff_statement (p : Policy) (q : Query) (hp : p.passthrough = false)
+    (hc : OracleCoherent p q) : (∃ a, TrustedBy p q a) ↔ StatementTrusted p q := by
+  unfold TrustedBy StatementTrusted
+  constructor
+  · rintro ⟨a, h | h | h⟩
+    · rw [hp] at h; cases h.1
+    · exact Or.inl h.2.1
+    · obtain ⟨_, _, _, he, hcp, hsp, h⟩ := h
+      refine Or.inr ⟨he, hcp, hsp, ?_⟩
+      rcases h with ⟨hs, _⟩ | ⟨_, ho, hup, hu, _⟩
+      · exact Or.inl hs
+      · exact Or.inr ⟨ho, hup, hu⟩
+  · intro h
+    by_cases hm : q.certHash ∈ p.allowSet
+    · exact ⟨.endEntity, Or.inr (Or.inl ⟨hp, hm, rfl⟩)⟩
+    · rcases h with h | ⟨he, hcp, hsp, h⟩
+      · exact absurd h hm
+      · cases hs : q.sysValid
+        · rcases h with h | ⟨ho, hup, hu⟩
+          · rw [hs] at h; cases h
+          · exact ⟨.user, Or.inr (Or.inr ⟨hp, hm, Or.inr (hc.2 hu), he, hcp, hsp,
+              Or.inr ⟨rfl, ho, hup, hu, rfl⟩⟩)⟩
+        · exact ⟨.system, Or.inr (Or.inr ⟨hp, hm, Or.inl (hc.1 hs), he, hcp, hsp, Or.inl ⟨rfl, rfl⟩⟩)⟩
+
+/-- **trusted_iff_statement**: for every policy a reader can configure (`passthrough` is the
+internal no-check policy) `signingCredential.trusted` is logged exactly under the statement's
+condition, and `signingCredential.untrusted` exactly otherwise. -/
+theorem trusted_iff_statement (p : Policy) (q : Query) (hp : p.passthrough = false)
+    (hc : OracleCoherent p q) :
+    (verifyTrust .trustPolicy .openssl p q = .trusted ↔ StatementTrusted p q) ∧
+    (verifyTrust .trustPolicy .openssl p q = .untrusted ↔ ¬ StatementTrusted p q) := by
+  rw [← trustedBy_iff_statement p q hp hc]
+  exact ⟨by simpa using trusted_iff_policy .trustPolicy p q, otherwise_untrusted p q⟩
+
+/-- **allowlisted_regardless**: an allow-listed certificate is trusted as `EndEntity` whatever
+else is true of it (EKU, chain, anchors, decodability), on both backends. -/
+theorem allowlisted_regardless (p : Policy) (q : Query) (h : p.passthrough = false)
+    (hm : q.certHash ∈ p.allowSet) :
+    ∀ (b : Backend) (q' : Query), q'.certHash = q.certHash → checkTrust b p q' = .ok .endEntity := by
+  intro b q' hq
+  have hm' : q'.certHash ∈ p.allowSet := by rw [hq]; exact hm
+  unfold checkTrust
+  simp [h, hm']
+
+/-- **empty_policy_untrusted**: a policy with no allow-list entry and no anchor trusts nothing. -/
+theorem empty_policy_untrusted (p : Policy) (h0 : p.passthrough = false) (h1 : p.allowSet = [])
+    (h2 : p.nSys = 0) (h3 : p.nUser = 0) :
+    ∀ (b : Backend) (q : Query), verifyTrust .trustPolicy b p q = .untrusted := by
+  intro b q
+  unfold verifyTrust checkTrust opensslCheck rustNativeCheck
+  cases b <;> simp [h0, h1, h2, h3]
+
+/-- **trust_monotone_in_oracle**: a positive answer is preserved when the chain oracle's answers
+only move from "does not verify" to "verifies" (everything else unchanged). -/
+theorem trust_monotone_in_oracle (b : Backend) (p : Policy) (q : Query) (a : Anchor) (sv uv : Bool)
+    (h : checkTrust b p q = .ok a) (hs : q.sysValid = true → sv = true)
+    (hu : q.userValid = true → uv = true) :
+    ∃ a', checkTrust b p { q with sysValid := sv, userValid := uv } = .ok a' := by
+  have hg : ekuGate p { q with sysValid := sv, userValid := uv } = ekuGate p q := rfl
+  revert h
+  unfold checkTrust opensslCheck rustNativeCheck
+  simp only [hg]
+  cases b <;> cases p.passthrough <;> cases p.allowSet.contains q.certHash <;>
+    cases (p.nSys == 0 && p.nUser == 0) <;> cases ekuGate p q <;> simp
+  · cases hsv : q.sysValid <;> cases huv : q.userValid <;> simp [hsv, huv] at hs hu <;>
+      cases q.chainParses <;> cases q.sysAnchorsParse <;> cases p.anchorsOnly <;>
+      cases q.userAnchorsParse <;> cases sv <;> cases uv <;> simp_all
+  · cases hsv : q.sysValid <;> cases huv : q.userValid <;> simp [hsv, huv] at hs hu <;>
+      cases p.anchorsOnly <;> cases sv <;> cases uv <;> simp_all
+
+/-! ### Settings loading (`Store::from_context`) -/
+
+/-- No reader setting selects the no-check policy or trust-anchor-only mode. -/
+theorem fromContext_flags (d : List String) (s : TrustSettings) :
+    (fromContext d s).passthrough = false ∧ (fromContext d s).anchorsOnly = false := ⟨rfl, rfl⟩
+
+/-- **The default configuration trusts nothing**: with no `trust` setting every credential is
+reported untrusted. -/
+theorem fromContext_default_untrusted (d : List String) (b : Backend) (q : Query) :
+    verifyTrust .trustPolicy b (fromContext d {}) q = .untrusted :=
+  empty_policy_untrusted _ rfl rfl rfl rfl b q
+
+/-- The built-in EKU list is always accepted; `trust_config` only adds to it. -/
+theorem fromContext_ekus (d : List String) (s : TrustSettings) :
+    (∀ o ∈ d, o ∈ (fromContext d s).allowedEkus) ∧
+    (∀ ls, s.trustConfig = some ls → ∀ l ∈ ls, l.b64ok = true → l.text ∈ (fromContext d s).allowedEkus) := by
+  refine ⟨fun o ho => List.mem_append_left _ ho, ?_⟩
+  intro ls hls l hl hok
+  unfold fromContext
+  simp only [hls]
+  apply List.mem_append_right
+  unfold loadEkus
+  exact List.mem_map.2 ⟨l, List.mem_filter.2 ⟨hl, hok⟩, rfl⟩
+
+/-- A reader-configured policy trusts a credential only through what the settings supplied: an
+`allowed_list` entry, or — with an accepted EKU — a chain to a `trust_anchors` or `user_anchors`
+certificate. -/
+theorem fromContext_trusted_only_if (d : List String) (s : TrustSettings) (q : Query)
+    (h : verifyTrust .trustPolicy .openssl (fromContext d s) q = .trusted) :
+    (∃ ls ps, s.allowedList = some (ls, ps) ∧ q.certHash ∈ (loadAllowListR ls ps).2) ∨
+    (EkuAccepted (fromContext d s) q ∧
+      ((∃ bs, s.trustAnchors = some bs ∧ (loadAnchors bs).2 ≠ 0 ∧ q.sysValid = true) ∨
+       (∃ bs, s.userAnchors = some bs ∧ (loadAnchors bs).2 ≠ 0 ∧ q.userValid = true) ∨
+       -- the oracle answered "verifies" for a store the settings left empty (excluded by `OracleCoherent`)
+       (q.sysValid = true ∧ (fromContext d s).nSys = 0) ∨ (q.userValid = true ∧ (fromContext d s).nUser = 0))) := by
+  obtain ⟨_, a, ha⟩ := (trusted_iff_policy .trustPolicy _ q).1 h
+  rcases ha with ha | ha | ha
+  · cases ha.1
+  · left
+    have hm := ha.2.1
+    unfold fromContext at hm
+    cases hal : s.allowedList with
+    | none => simp [hal] at hm
+    | some lp => obtain ⟨ls, ps⟩ := lp; exact ⟨ls, ps, rfl, by simpa [hal] using hm⟩
+  · right
+    obtain ⟨_, _, _, he, _, _, hv⟩ := ha
+    refine ⟨he, ?_⟩
+    rcases hv with ⟨hs, _⟩ | ⟨_, _, _, hu, _⟩
+    · cases hta : s.trustAnchors with
+      | none => exact Or.inr (Or.inr (Or.inl ⟨hs, by simp [fromContext, hta]⟩))
+      | some bs =>
+        by_cases hz : (loadAnchors bs).2 = 0
+        · exact Or.inr (Or.inr (Or.inl ⟨hs, by simp [fromContext, hta, hz]⟩))
+        · exact Or.inl ⟨bs, rfl, hz, hs⟩
+    · cases hua : s.userAnchors with
+      | none => exact Or.inr (Or.inr (Or.inr ⟨hu, by simp [fromContext, hua]⟩))
+      | some bs =>
+        by_cases hz : (loadAnchors bs).2 = 0
+        · exact Or.inr (Or.inr (Or.inr ⟨hu, by simp [fromContext, hua, hz]⟩))
+        · exact Or.inr (Or.inl ⟨bs, rfl, hz, hu⟩)
+
+/-! ### `cert_chain_from_sign1` / `Verifier::verify_signature`: when is there a verdict at all -/
+
+/-- A chain is found exactly when exactly one header supplies one (the protected header's wins the
+lookup; a usable chain in both is an error). -/
+theorem chain_ok_iff (prot unprot : HeaderChain) :
+    certChainFromSign1 prot unprot = .ok () ↔
+      (prot = .chain ∧ unprot ≠ .chain) ∨ (prot = .absent ∧ unprot = .chain) := by
+  cases prot <;> cases unprot <;> simp [certChainFromSign1]
+
+/-- What `Claim::verify_internal` adds to the log for the outcome of `verify_signature`. -/
+def afterVerifyInternal (o : VerifyOut) : C04.Codes :=
+  match o.result with
+  | .ok _ => { success := o.success ++ [C04.cInsideValidity, C04.cSigValidated], informational := [],
+               failure := o.failure }
+  | .error _ => { success := o.success, informational := [], failure := o.failure ++ [C06.cMismatch] }
+
+/-- The outcome of `verify_signature` as the single `sigOk` bit of the code assembly. -/
+def VerifyOut.isOk (o : VerifyOut) : Bool :=
+  match o.result with
+  | .ok _ => true
+  | .error _ => false
+
+/-- **Refinement**: when the chain can be extracted, the function-level model of
+`verify_signature` followed by `verify_internal` is the end-to-end code assembly
+(`C06.signatureCodes`) with `sigOk` = "`verify_signature` returned `Ok`" — i.e. an undecodable
+certificate, a wrong signature and a subject without organisation are exactly the `sigOk = false`
+cases. -/
+theorem verifySignature_refines (mode : Mode) (b : Backend) (tst : Option Int) (now : Int)
+    (f : C06.CertFacts) (p : Policy) (q : Query) (prot unprot : HeaderChain) (sigOk hasOrg : Bool)
+    (hc : certChainFromSign1 prot unprot = .ok ()) :
+    afterVerifyInternal (verifySignature mode b tst now f p q prot unprot sigOk hasOrg) =
+      credentialCodes mode b tst now f p q (f.parses && sigOk && hasOrg) := by
+  unfold verifySignature afterVerifyInternal credentialCodes C06.signatureCodes
+  rw [hc]
+  cases f.parses <;> cases sigOk <;> cases hasOrg <;> simp
+
+/-- **verdict_iff_chain**: with trust verification on, `verify_signature` logs exactly one of
+`signingCredential.trusted` / `signingCredential.untrusted` when the signature carries a usable
+certificate chain — and *neither* when it does not; then it returns an error, so the claim
+signature is reported as mismatching and the manifest is Invalid (never Trusted). -/
+theorem verdict_iff_chain (b : Backend) (tst : Option Int) (now : Int) (f : C06.CertFacts)
+    (p : Policy) (q : Query) (prot unprot : HeaderChain) (sigOk hasOrg : Bool) :
+    let o := verifySignature .trustPolicy b tst now f p q prot unprot sigOk hasOrg
+    (certChainFromSign1 prot unprot = .ok () →
+      (C04.cTrusted ∈ o.success ↔ verifyTrust .trustPolicy b p (queryOf f q) = .trusted) ∧
+      (C04.cUntrusted ∈ o.failure ↔ verifyTrust .trustPolicy b p (queryOf f q) = .untrusted)) ∧
+    (certChainFromSign1 prot unprot ≠ .ok () →
+      o.success = [] ∧ o.failure = [] ∧ o.isOk = false ∧
+      C04.state (C06.resultsOf (afterVerifyInternal o)) = .invalid) := by
+  intro o
+  constructor
+  · intro hc
+    have ho : o = verifySignature .trustPolicy b tst now f p q prot unprot sigOk hasOrg := rfl
+    unfold verifySignature at ho
+    rw [hc] at ho
+    simp only at ho
+    rcases verdict_total b p (queryOf f q) with hv | hv
+    · rw [ho, hv]
+      constructor
+      · simp [C06.trustCodes, Verdict.toTrust]
+      · simp only [C06.trustCodes, Verdict.toTrust, if_true, List.append_nil]
+        constructor
+        · intro hmem
+          exfalso
+          unfold C06.profileFailure at hmem
+          cases hce : C06.checkEndEntity (envOf p tst now) f with
+          | ok => rw [hce] at hmem; simp at hmem
+          | err k c r =>
+            rw [hce] at hmem
+            cases c <;> simp at hmem <;> exact absurd hmem (by decide)
+        · intro h; cases h
+    · rw [ho, hv]
+      constructor
+      · simp [C06.trustCodes, Verdict.toTrust]
+      · simp [C06.trustCodes, Verdict.toTrust]
+  · intro hc
+    have ho : o = verifySignature .trustPolicy b tst now f p q prot unprot sigOk hasOrg := rfl
+    unfold verifySignature at ho
+    cases hcc : certChainFromSign1 prot unprot with
+    | ok u => cases u; exact absurd hcc hc
+    | error e =>
+      rw [hcc] at ho
+      cases e <;> simp only at ho <;> rw [ho] <;>
+        exact ⟨rfl, rfl, rfl, by decide⟩
 
 /-! ### The allow-list loader -/
 
@@ -335,6 +582,98 @@ theorem hash_line_loaded (pre post : List Line) (l : Line) (pems : List String)
   rw [hn]
   simp [hlen, hok]
 
+/-! ### The failure path of the loaders -/
+
+theorem mem_of_mem_takeWhile {α} (p : α → Bool) (x : α) : ∀ (l : List α), x ∈ l.takeWhile p → x ∈ l := by
+  intro l
+  induction l with
+  | nil => intro h; simp at h
+  | cons a l ih =>
+    intro h
+    rw [List.takeWhile_cons] at h
+    split at h
+    · rcases List.mem_cons.1 h with rfl | h
+      · exact List.mem_cons_self ..
+      · exact List.mem_cons_of_mem _ (ih h)
+    · simp at h
+
+theorem takeWhile_map_some : ∀ (l : List String),
+    ((l.map some).takeWhile Option.isSome).filterMap id = l := by
+  intro l
+  induction l with
+  | nil => rfl
+  | cons a l ih => simp [List.takeWhile_cons, ih]
+
+theorem loadPems_spec : ∀ (ps : List (Option String)),
+    ((loadPems ps).1 = true ↔ ∀ x ∈ ps, x ≠ none) ∧
+    (loadPems ps).2 = (ps.takeWhile Option.isSome).filterMap id := by
+  intro ps
+  induction ps with
+  | nil => simp [loadPems]
+  | cons x xs ih =>
+    cases x with
+    | none => simp [loadPems]
+    | some h => simp [loadPems, ih.1, ih.2]
+
+/-- With every block decodable the loader is the total `loadAllowList` and returns `Ok`. -/
+theorem loadAllowListR_ok (lines : List Line) (pems : List String) :
+    loadAllowListR lines (pems.map some) = (true, loadAllowList lines pems) := by
+  have h := loadPems_spec (pems.map some)
+  have h1 : (loadPems (pems.map some)).1 = true := h.1.2 (by simp)
+  have h2 : (loadPems (pems.map some)).2 = pems := by
+    rw [h.2]; exact takeWhile_map_some pems
+  unfold loadAllowListR loadAllowList
+  rw [h1, h2]
+
+/-- **A bad PEM block**: the call returns `Err` exactly when some block is rejected; the hash
+lines and the blocks *before* the first bad one are in the set all the same, nothing after it
+is, and nothing else ever is. -/
+theorem loadAllowListR_spec (lines : List Line) (ps : List (Option String)) :
+    ((loadAllowListR lines ps).1 = true ↔ ∀ x ∈ ps, x ≠ none) ∧
+    (∀ x ∈ scanLines lines false, x ∈ (loadAllowListR lines ps).2) ∧
+    (∀ (pre : List String) (rest : List (Option String)), ps = pre.map some ++ rest →
+      ∀ h ∈ pre, h ∈ (loadAllowListR lines ps).2) ∧
+    (∀ (pre : List String) (rest : List (Option String)), ps = pre.map some ++ none :: rest →
+      (loadAllowListR lines ps).2 = scanLines lines false ++ pre) ∧
+    (∀ x ∈ (loadAllowListR lines ps).2,
+      some x ∈ ps ∨ ∃ l ∈ lines, l.text = x ∧ l.text.length = 44 ∧ l.b64ok = true) := by
+  have hp := loadPems_spec ps
+  have hpre : ∀ (pre : List String) (rest : List (Option String)),
+      ((pre.map some ++ rest).takeWhile Option.isSome).filterMap id =
+        pre ++ (rest.takeWhile Option.isSome).filterMap id := by
+    intro pre rest
+    induction pre with
+    | nil => rfl
+    | cons a l ih => simp [List.takeWhile_cons, ih]
+  refine ⟨hp.1, fun x hx => List.mem_append_left _ hx, ?_, ?_, ?_⟩
+  · intro pre rest he h hh
+    unfold loadAllowListR
+    rw [hp.2, he, hpre]
+    exact List.mem_append_right _ (List.mem_append_left _ hh)
+  · intro pre rest he
+    unfold loadAllowListR
+    rw [hp.2, he, hpre]
+    simp
+  · intro x hx
+    unfold loadAllowListR at hx
+    rcases List.mem_append.1 hx with h | h
+    · exact Or.inr (scanLines_sound lines false x h)
+    · left
+      rw [hp.2] at h
+      obtain ⟨y, hy, hyx⟩ := List.mem_filterMap.1 h
+      have := mem_of_mem_takeWhile _ _ _ hy
+      cases y with
+      | none => cases hyx
+      | some z => simp at hyx; rw [← hyx]; exact this
+
+theorem loadAnchors_spec : ∀ (bs : List Bool),
+    ((loadAnchors bs).1 = true ↔ ∀ x ∈ bs, x = true) ∧
+    (loadAnchors bs).2 = (bs.takeWhile id).length := by
+  intro bs
+  induction bs with
+  | nil => simp [loadAnchors]
+  | cons x xs ih => cases x <;> simp [loadAnchors, ih.1, ih.2]
+
 /-! ### Non-vacuity -/
 
 def exPolicy : Policy := { nSys := 1, nUser := 1, allowedEkus := ["1.3.6.1.5.5.7.3.36"] }
@@ -347,8 +686,21 @@ example : checkTrust .openssl exPolicy { exQuery with sysValid := true } = .ok .
 example : checkTrust .openssl { exPolicy with allowSet := ["h"] } { exQuery with userValid := false } = .ok .endEntity := rfl
 example : checkTrust .openssl exPolicy { exQuery with eku := some { serverAuth := true } } = .error .invalidEku := rfl
 example : verifyTrust .profileOnly .openssl exPolicy exQuery = .none := by decide
-example : credentialState .trustPolicy .openssl { now := 50 } C06.exConforming exPolicy exQuery true = .trusted := by decide
-example : credentialState .trustPolicy .openssl { now := 50 } C06.exConforming { exPolicy with anchorsOnly := true } exQuery true = .valid := by decide
+example : credentialState .trustPolicy .openssl none 50 C06.exConforming exPolicy exQuery true = .trusted := by decide
+example : credentialState .trustPolicy .openssl none 50 C06.exConforming { exPolicy with anchorsOnly := true } exQuery true = .valid := by decide
+example : OracleCoherent exPolicy exQuery := ⟨by decide, by decide⟩
+example : StatementTrusted exPolicy exQuery := ((trusted_iff_statement _ _ rfl ⟨by decide, by decide⟩).1).1 rfl
+example : loadAllowListR [{ text := "BBBBBBBBBBBBBBBBBBBBBBBBBBBBBBBBBBBBBBBBBBB=", b64ok := true }] [some "p", none, some "r"]
+    = (false, ["BBBBBBBBBBBBBBBBBBBBBBBBBBBBBBBBBBBBBBBBBBB=", "p"]) := by decide
+example : loadAnchors [true, true, false, true] = (false, 2) := by decide
+example : certChainFromSign1 .absent .absent = .error .missing := rfl
+example : certChainFromSign1 .chain .chain = .error .multiple := rfl
+example : certChainFromSign1 .bad .chain = .error .multiple := rfl
+example : certChainFromSign1 .absent .chain = .ok () := rfl
+example : (verifySignature .trustPolicy .openssl none 50 C06.exConforming exPolicy exQuery .bad .absent true true).failure = [] := rfl
+example : (verifySignature .trustPolicy .openssl none 50 C06.exConforming exPolicy exQuery .chain .absent true true).success
+    = [C04.cTrusted] := by decide
+example : (fromContext ["1.3.6.1.5.5.7.3.36"] { userAnchors := some [true] }).nUser = 1 := rfl
 example : loadAllowList [{ text := "-----BEGIN CERTIFICATE-----", isBegin := true },
     { text := "AAAAAAAAAAAAAAAAAAAAAAAAAAAAAAAAAAAAAAAAAAA=", b64ok := true },
     { text := "-----END CERTIFICATE-----", isEnd := true },
